@@ -72,6 +72,36 @@ extern "C" {
     pub fn askar_key_generate(alg: *const c_char, backend: *const c_char, ephemeral: i8, out: *mut P) -> Code;
     pub fn askar_key_get_algorithm(k: P, out: *mut *const c_char) -> Code;
     pub fn askar_key_free(k: P);
+    pub fn askar_store_open(uri: *const c_char, method: *const c_char, pass_key: *const c_char, profile: *const c_char, cb: CbHandle, cb_id: i64) -> Code;
+    pub fn askar_store_rekey(h: H, method: *const c_char, pass_key: *const c_char, cb: CbUnit, cb_id: i64) -> Code;
+    pub fn askar_store_remove_profile(h: H, profile: *const c_char, cb: CbI8, cb_id: i64) -> Code;
+    pub fn askar_store_get_default_profile(h: H, cb: CbStr, cb_id: i64) -> Code;
+    pub fn askar_store_set_default_profile(h: H, profile: *const c_char, cb: CbUnit, cb_id: i64) -> Code;
+    pub fn askar_version() -> *mut c_char;
+    pub fn askar_set_max_log_level(level: i32) -> Code;
+    pub fn askar_key_from_seed(alg: *const c_char, seed: ByteBuf, method: *const c_char, out: *mut P) -> Code;
+    pub fn askar_key_get_public_bytes(k: P, out: *mut SecretBuf) -> Code;
+    pub fn askar_key_get_secret_bytes(k: P, out: *mut SecretBuf) -> Code;
+    pub fn askar_key_get_jwk_secret(k: P, out: *mut SecretBuf) -> Code;
+    pub fn askar_key_aead_random_nonce(k: P, out: *mut SecretBuf) -> Code;
+    pub fn askar_key_get_jwk_public(k: P, alg: *const c_char, out: *mut *const c_char) -> Code;
+    pub fn askar_key_get_jwk_thumbprint(k: P, alg: *const c_char, out: *mut *const c_char) -> Code;
+    pub fn askar_key_get_ephemeral(k: P, out: *mut i8) -> Code;
+    pub fn askar_key_sign_message(k: P, msg: ByteBuf, sig_type: *const c_char, out: *mut SecretBuf) -> Code;
+    pub fn askar_key_verify_signature(k: P, msg: ByteBuf, sig: ByteBuf, sig_type: *const c_char, out: *mut i8) -> Code;
+    pub fn askar_key_crypto_box_random_nonce(out: *mut SecretBuf) -> Code;
+    pub fn askar_key_get_supported_backends(out: *mut P) -> Code;
+    pub fn askar_key_entry_list_count(l: P, count: *mut i32) -> Code;
+    pub fn askar_key_entry_list_get_name(l: P, index: i32, out: *mut *const c_char) -> Code;
+    pub fn askar_key_entry_list_get_algorithm(l: P, index: i32, out: *mut *const c_char) -> Code;
+    pub fn askar_key_entry_list_get_metadata(l: P, index: i32, out: *mut *const c_char) -> Code;
+    pub fn askar_key_entry_list_get_tags(l: P, index: i32, out: *mut *const c_char) -> Code;
+    pub fn askar_key_entry_list_load_local(l: P, index: i32, out: *mut P) -> Code;
+    pub fn askar_key_entry_list_free(l: P);
+    pub fn askar_session_fetch_key(h: H, name: *const c_char, for_update: i8, cb: CbPtr, cb_id: i64) -> Code;
+    pub fn askar_session_fetch_all_keys(h: H, alg: *const c_char, thumbprint: *const c_char, tag_filter: *const c_char, limit: i64, for_update: i8, cb: CbPtr, cb_id: i64) -> Code;
+    pub fn askar_session_update_key(h: H, name: *const c_char, metadata: *const c_char, tags: *const c_char, expiry_ms: i64, cb: CbUnit, cb_id: i64) -> Code;
+    pub fn askar_session_remove_key(h: H, name: *const c_char, cb: CbUnit, cb_id: i64) -> Code;
 }
 
 pub fn code_name(c: Code) -> String {
@@ -112,6 +142,7 @@ pub extern "C" fn cb_unit(id: i64, c: Code) { record(id, CbVal::Unit(c)) }
 pub extern "C" fn cb_handle(id: i64, c: Code, h: H) { record(id, CbVal::Handle(c, h.0)) }
 pub extern "C" fn cb_ptr(id: i64, c: Code, p: P) { record(id, CbVal::Ptr(c, p.0 as usize)) }
 pub extern "C" fn cb_i64(id: i64, c: Code, n: i64) { record(id, CbVal::I64(c, n)) }
+pub extern "C" fn cb_i8(id: i64, c: Code, n: i8) { record(id, CbVal::I64(c, n as i64)) }
 pub extern "C" fn cb_str(id: i64, c: Code, s: *const c_char) {
     let v = if s.is_null() { None } else {
         let t = unsafe { std::ffi::CStr::from_ptr(s) }.to_string_lossy().to_string();
